@@ -7,7 +7,16 @@
      4 n input  pat              Retry(n) with Input = input; pat (enc_zs of 0/1): invocation k succeeds iff pat[k] = 1
      5 n d_ms input  pat         RetryWithDelay(n, d_ms milliseconds)
      6 def nA nB  rs  ops        mixed history on ONE cache: ops (enc_zs) 0 = Before(&A), 1 = Before(&B), 2 = Once,
-                                 3 = Delete("func")
+                                 3 = Delete("func"), 4 = Flush(), 5 = sleep until every stored entry has
+                                 expired (time.Sleep of more than def; only for def <= 1s)
+     7 n d_ms input  pat  durs   RetryWithDelay(n, d_ms ms) with slow attempts: invocation k takes durs[k] * d/2
+     8 code off m                After on an EXTREME counter: n = anchor(code) + off, where anchor is
+                                 0: 0, 1: math.MaxInt, 2: math.MinInt, 3: 2^31, 4: -2^31, 5: 2^62, 6: -2^62
+                                 (introduced when the line protocol carried 63-bit integers only; kept)
+     9 def code off m  rs        Before on an extreme counter
+     10 code off input  pat      Retry(n) with an extreme n
+     11 n m                      After with a counter of type int8 (-128 <= n <= 127)
+     12 def n m  rs              Before with a counter of type int8
    The callback's k-th invocation returns rs[k] (0 beyond the list) / fails
    with error number k+1 unless pat[k] = 1 (fails beyond the list).
 
@@ -17,13 +26,24 @@
      3:  outs ++ final Get("func")
      6:  outs ++ [final A; final B] ++ final Get("func")
          outs = number of calls :: per call [invocations made by it; value returned]
-     4:  [invocations; attempts returned; error code; every invocation received Input]
-     5:  the same ++ [consecutive invocations >= d apart; elapsed arguments consistent; returned duration >= failures*d]
+     8:  as 1, the final counter as [floor(c / 2^32); c mod 2^32]
+     9:  as 2, the final counter in the same two words
+     11, 12: as 1, 2
+     4, 10:  [invocations; attempts returned; error code; every invocation received Input]
+     5:  the same ++ [consecutive invocations >= d apart; elapsed arguments consistent;
+                      returned duration >= (invocations - 1) * d]
+     7:  the same as 4 ++ [every attempt starts >= d after the previous one RETURNED;
+                      consecutive starts >= duration of the earlier attempt + d apart;
+                      elapsed arguments consistent with that; returned duration >= the sum of all of it]
+         (all of these are lower bounds on measured time: 1 = the bound held)
          error code: 0 nil, -1 Retry's own argument error, k+1 the error of invocation k
 
-   def is the default expiry in ns: the harness uses only 0 (entries never
-   expire), -1 (NoExpiration) and 3600e9 (one hour — longer than any run), for
-   which every clock comparison comes out as under the constant clock used here. *)
+   def is the default expiry in ns: the harness uses 0 (entries never expire),
+   -1 (NoExpiration), 3600e9 (one hour — longer than any run) and, in histories
+   with sleeps, 50e6 (50 ms): the clock of the model stands still except for
+   the sleeps, which is how the real clock decides every comparison as long as
+   the calls between two sleeps take less than def (the harness measures that
+   and re-executes the case otherwise) and a sleep lasts longer than def. *)
 
 From Gogu Require Import Base C18_Model.
 Local Open Scope Z_scope.
@@ -35,29 +55,34 @@ Definition ok_of (pat : list Z) : nat -> bool := fun k => negb (nth k pat 0 =? 0
 Definition enc_outs (os : list outcome) : list Z :=
   Z.of_nat (length os) :: flat_map (fun o => [Z.of_nat (fst o); snd o]) os.
 
-Definition enc_get (w : world) : list Z :=
-  match fst (c_get clk0 (w_cache w) (w_tick w)) with
+Definition enc_memo (memo : option Z) : list Z :=
+  match memo with
   | Some v => [1; v]
   | None => [0; 0]
   end.
 
+Definition enc_get (skew : Z) (w : world) : list Z :=
+  enc_memo (fst (c_get (fun i => clk0 i + skew) (w_cache w) (w_tick w))).
+
 Definition rd_count (m : Z) : option nat :=
   if (0 <=? m) && (m <=? 100000) then Some (Z.to_nat m) else None.
 
-Definition mop_of (z : Z) : option mop :=
+Definition mop_of (def z : Z) : option mop :=
   match z with
   | 0 => Some MBeforeA
   | 1 => Some MBeforeB
   | 2 => Some MOnce
   | 3 => Some MDelete
+  | 4 => Some MFlush
+  | 5 => if def <=? 1000000000 then Some (MSleep (def + 1)) else None
   | _ => None
   end.
 
-Fixpoint mops_of (l : list Z) : option (list mop) :=
+Fixpoint mops_of (def : Z) (l : list Z) : option (list mop) :=
   match l with
   | [] => Some []
   | z :: l' =>
-      match mop_of z, mops_of l' with
+      match mop_of def z, mops_of def l' with
       | Some o, Some os => Some (o :: os)
       | _, _ => None
       end
@@ -66,27 +91,47 @@ Fixpoint mops_of (l : list Z) : option (list mop) :=
 Definition enc_retry (r : retry_result) : list Z :=
   [Z.of_nat (r_calls r); r_attempts r; r_err r; 1].
 
+Definition anchor (code : Z) : option Z :=
+  match code with
+  | 0 => Some 0
+  | 1 => Some max64
+  | 2 => Some min64
+  | 3 => Some 2147483648
+  | 4 => Some (-2147483648)
+  | 5 => Some 4611686018427387904
+  | 6 => Some (-4611686018427387904)
+  | _ => None
+  end.
+
+Definition in8 (n : Z) : bool := (min8 <=? n) && (n <=? 127).
+
+Definition enc_i64 (c : Z) : list Z := [c / 4294967296; c mod 4294967296].
+
+(* Retry with an n that may be 2^63 - 1: the loop is evaluated with fuel for the
+   given pattern (C18_retry_any_fuel: if it finishes, that is Retry's result) *)
+Definition retry_fuel_pat (pat : list Z) : nat := S (S (length pat)).
+
 Definition c18_run (w : list Z) : list Z :=
   match w with
   | [1; n; m] =>
       match rd_count m with
       | Some m =>
-          let '(rs, nf) := after_calls m n in
+          let '(rs, nf) := after_calls min64 m n in
           enc_zs (map Z.of_nat rs) ++ [nf]
       | None => wire_error
       end
   | 2 :: def :: n :: m :: rest =>
       match rd_count m, rd_zs rest with
       | Some m, Some (rs, []) =>
-          let '(os, nf, wf) := before_calls clk0 (fn_of rs) m n (world0 def) in
-          enc_outs os ++ [nf] ++ enc_get wf
+          let '(os, nf, wf) := before_calls min64 clk0 (fn_of rs) m n (world0 def) in
+          enc_outs os ++ [nf] ++ enc_get 0 wf
       | _, _ => wire_error
       end
   | 3 :: def :: m :: rest =>
       match rd_count m, rd_zs rest with
       | Some m, Some (rs, []) =>
           let '(os, wf) := once_calls clk0 (fn_of rs) m (world0 def) in
-          enc_outs os ++ enc_get wf
+          enc_outs os ++ enc_get 0 wf
       | _, _ => wire_error
       end
   | 4 :: n :: _ :: rest =>
@@ -112,15 +157,65 @@ Definition c18_run (w : list Z) : list Z :=
       | Some (rs, rest') =>
           match rd_zs rest' with
           | Some (zops, []) =>
-              match mops_of zops with
+              match mops_of def zops with
               | Some ops =>
-                  let '(os, sf) := mrun clk0 (fn_of rs) ops (mkM na nb (world0 def)) in
-                  enc_outs os ++ [m_a sf; m_b sf] ++ enc_get (m_w sf)
+                  let '(os, sf) := mrun min64 clk0 (fn_of rs) ops (mkM na nb 0 (world0 def)) in
+                  enc_outs os ++ [m_a sf; m_b sf] ++ enc_get (m_skew sf) (m_w sf)
               | None => wire_error
               end
           | _ => wire_error
           end
       | None => wire_error
+      end
+  | 7 :: n :: _ :: _ :: rest =>
+      match rd_zs rest with
+      | Some (pat, rest') =>
+          match rd_zs rest' with
+          | Some (_, []) =>
+              match retry_delay 0 (fun _ => 0) (fun _ => 0) (fun _ => 0) 0 n (ok_of pat) with
+              | Some r => enc_retry (d_res r) ++ [1; 1; 1; 1]
+              | None => wire_error
+              end
+          | _ => wire_error
+          end
+      | None => wire_error
+      end
+  | [8; code; off; m] =>
+      match anchor code, rd_count m with
+      | Some a, Some m =>
+          let '(rs, nf) := after_calls min64 m (a + off) in
+          enc_zs (map Z.of_nat rs) ++ enc_i64 nf
+      | _, _ => wire_error
+      end
+  | 9 :: def :: code :: off :: m :: rest =>
+      match anchor code, rd_count m, rd_zs rest with
+      | Some a, Some m, Some (rs, []) =>
+          let '(os, nf, wf) := before_calls min64 clk0 (fn_of rs) m (a + off) (world0 def) in
+          enc_outs os ++ enc_i64 nf ++ enc_get 0 wf
+      | _, _, _ => wire_error
+      end
+  | [11; n; m] =>
+      match in8 n, rd_count m with
+      | true, Some m =>
+          let '(rs, nf) := after_calls min8 m n in
+          enc_zs (map Z.of_nat rs) ++ [nf]
+      | _, _ => wire_error
+      end
+  | 12 :: def :: n :: m :: rest =>
+      match in8 n, rd_count m, rd_zs rest with
+      | true, Some m, Some (rs, []) =>
+          let '(os, nf, wf) := before_calls min8 clk0 (fn_of rs) m n (world0 def) in
+          enc_outs os ++ [nf] ++ enc_get 0 wf
+      | _, _, _ => wire_error
+      end
+  | 10 :: code :: off :: _ :: rest =>
+      match anchor code, rd_zs rest with
+      | Some a, Some (pat, []) =>
+          match retry_with (retry_fuel_pat pat) (a + off) (ok_of pat) with
+          | Some r => enc_retry r
+          | None => wire_error
+          end
+      | _, _ => wire_error
       end
   | _ => wire_error
   end.
@@ -131,10 +226,13 @@ Definition c18_agree (w obs : list Z) : bool := zlist_eqb obs (c18_run w).
    specification of C18_Model.v (after_spec_runs, before_spec, once_spec,
    retry_spec), not against the transcription.  C18_Props proves the two equal
    on the whole domain, so on the repaired tree holds = agree; on a defective
-   tree they are computed independently.  Mixed histories (6) have no closed
-   form in the property text: there the reference is the transcription itself
-   (every single call of it is characterised by C18_before_call_any_state /
-   C18_once_call_any_state). *)
+   tree they are computed independently.  Mixed histories (6) are judged
+   against the clock-free memo-cell machine [srun] (C18_Model.v): Before runs
+   iff its own counter is >= 1, Once runs iff the cell is empty, Delete / Flush /
+   an out-lasting sleep empty the cell; C18_shared_cache_refines_memo_cell
+   proves the transcription equal to it on every such history (the wire's
+   sleeps are def + 1, so its hypothesis holds).  The timing flags of 5 and 7
+   are lower bounds the property demands; the specification says 1. *)
 Definition enc_final (present : bool) (v : Z) : list Z :=
   if present then [1; v] else [0; 0].
 
@@ -142,13 +240,13 @@ Definition c18_spec (w : list Z) : list Z :=
   match w with
   | [1; n; m] =>
       match rd_count m with
-      | Some m => enc_zs (map Z.of_nat (after_spec_runs n m)) ++ [n - Z.of_nat m]
+      | Some m => enc_zs (map Z.of_nat (after_spec_runs n m)) ++ [Z.max min64 (n - Z.of_nat m)]
       | None => wire_error
       end
   | 2 :: def :: n :: m :: rest =>
       match rd_count m, rd_zs rest with
       | Some m, Some (rs, []) =>
-          enc_outs (before_spec (fn_of rs) n m) ++ [n - Z.of_nat m]
+          enc_outs (before_spec (fn_of rs) n m) ++ [Z.max min64 (n - Z.of_nat m)]
           ++ enc_final ((1 <=? n) && (n <=? Z.of_nat m)) (fn_of rs (Z.to_nat (n - 1)))
       | _, _ => wire_error
       end
@@ -168,7 +266,75 @@ Definition c18_spec (w : list Z) : list Z :=
       | Some (pat, []) => enc_retry (retry_spec false n (ok_of pat)) ++ [1; 1; 1]
       | _ => wire_error
       end
-  | 6 :: _ => c18_run w
+  | 6 :: def :: na :: nb :: rest =>
+      match rd_zs rest with
+      | Some (rs, rest') =>
+          match rd_zs rest' with
+          | Some (zops, []) =>
+              match mops_of def zops with
+              | Some ops =>
+                  let '(os, sf) := srun def (fn_of rs) ops (mkS na nb None 0) in
+                  enc_outs os ++ [Z.max min64 (s_a sf); Z.max min64 (s_b sf)] ++ enc_memo (s_memo sf)
+              | None => wire_error
+              end
+          | _ => wire_error
+          end
+      | None => wire_error
+      end
+  | 7 :: n :: _ :: _ :: rest =>
+      match rd_zs rest with
+      | Some (pat, rest') =>
+          match rd_zs rest' with
+          | Some (_, []) => enc_retry (retry_spec false n (ok_of pat)) ++ [1; 1; 1; 1]
+          | _ => wire_error
+          end
+      | None => wire_error
+      end
+  (* extreme counters: the closed forms — the counter rests at math.MinInt; one
+     that wraps around there (the code as shipped before ddacf7d) fails here *)
+  | [8; code; off; m] =>
+      match anchor code, rd_count m with
+      | Some a, Some m =>
+          enc_zs (map Z.of_nat (after_spec_runs (a + off) m)) ++ enc_i64 (Z.max min64 (a + off - Z.of_nat m))
+      | _, _ => wire_error
+      end
+  | 9 :: def :: code :: off :: m :: rest =>
+      match anchor code, rd_count m, rd_zs rest with
+      | Some a, Some m, Some (rs, []) =>
+          let n := a + off in
+          enc_outs (before_spec (fn_of rs) n m) ++ enc_i64 (Z.max min64 (n - Z.of_nat m))
+          ++ (if (1 <=? n) && (n <=? Z.of_nat m) then [1; fn_of rs (Z.to_nat (n - 1))] else [0; 0])
+      | _, _, _ => wire_error
+      end
+  (* a counter of type int8: the same closed forms, the counter rests at -128 *)
+  | [11; n; m] =>
+      match in8 n, rd_count m with
+      | true, Some m => enc_zs (map Z.of_nat (after_spec_runs n m)) ++ [Z.max min8 (n - Z.of_nat m)]
+      | _, _ => wire_error
+      end
+  | 12 :: def :: n :: m :: rest =>
+      match in8 n, rd_count m, rd_zs rest with
+      | true, Some m, Some (rs, []) =>
+          enc_outs (before_spec (fn_of rs) n m) ++ [Z.max min8 (n - Z.of_nat m)]
+          ++ (if (1 <=? n) && (n <=? Z.of_nat m) then [1; fn_of rs (Z.to_nat (n - 1))] else [0; 0])
+      | _, _, _ => wire_error
+      end
+  (* the closed form of Retry without counting up to n (C18_retry_first_success_any_n) *)
+  | 10 :: code :: off :: _ :: rest =>
+      match anchor code, rd_zs rest with
+      | Some a, Some (pat, []) =>
+          let n := a + off in
+          if n <? 0 then enc_retry (mkRetry 0 err_arg 0)
+          else match first_ok (ok_of pat) (length pat) with
+               | Some f =>
+                   if Z.of_nat f <? n then enc_retry (mkRetry (Z.of_nat f) 0 (S f))
+                   else enc_retry (retry_spec true n (ok_of pat))
+               | None =>
+                   if n <=? Z.of_nat (length pat) + 1 then enc_retry (retry_spec true n (ok_of pat))
+                   else wire_error
+               end
+      | _, _ => wire_error
+      end
   | _ => wire_error
   end.
 
